@@ -64,22 +64,14 @@ Lemma uniq_snoc acc r :
 Proof.
   induction acc as [|a acc IH]; cbn [app uniq].
   - unfold has_id; cbn. tauto.
-  - rewrite IH. rewrite has_id_app. unfold has_id at 2. cbn [existsb]. rewrite orb_false_r.
-    unfold has_id at 3. cbn [existsb]. fold (has_id (cr_id r) acc).
-    split.
-    + intros [[H0|H0] [H1 H2]].
-      * repeat split; try tauto. destruct H2 as [H2|H2]; [left; exact H2|].
-        destruct (N.eqb_spec (cr_id a) (cr_id r)) as [E|E]; [left; congruence|right; exact H2].
-      * apply orb_false_iff in H0 as [H0 H0']. repeat split; try tauto.
-        destruct H2 as [H2|H2]; [left; exact H2|]. right. rewrite H2, orb_false_r.
-        apply N.eqb_neq. apply N.eqb_neq in H0'. congruence.
-    + intros [[[H0|H0] H1] [H2|H2]]; repeat split; try tauto.
-      * apply orb_false_iff in H2 as [H2 H2']. tauto.
-      * destruct (N.eqb_spec (cr_id r) (cr_id a)) as [E|E].
-        -- left. congruence.
-        -- right. rewrite H0. cbn. apply N.eqb_neq. exact E.
-      * apply orb_false_iff in H2 as [H2 H2']. right. rewrite H0. cbn.
-        apply N.eqb_neq. apply N.eqb_neq in H2. congruence.
+  - rewrite IH, has_id_app.
+    replace (has_id (cr_id a) [r]) with (cr_id r =? cr_id a)
+      by (unfold has_id; cbn; rewrite orb_false_r; reflexivity).
+    replace (has_id (cr_id r) (a :: acc)) with ((cr_id a =? cr_id r) || has_id (cr_id r) acc) by reflexivity.
+    rewrite (N.eqb_sym (cr_id r) (cr_id a)).
+    destruct (N.eqb_spec (cr_id a) (cr_id r)) as [E|E]; rewrite ?orb_true_r, ?orb_false_r; cbn [orb].
+    + rewrite E. intuition (try congruence; try discriminate).
+    + tauto.
 Qed.
 
 Lemma uniq_app_l a b : uniq (a ++ b) -> uniq a.
@@ -249,7 +241,7 @@ Proof.
   destruct d as [l|t|m| | |]; try discriminate; cbn [cf_apply cf_rewrite zero_free] in *.
   - destruct l as [|sp l]; [discriminate|].
     eapply K; [|eapply rm_specs_filter; eassumption].
-    intros it _. rewrite compile_item_id. destruct it as [id ph h ch|nm]; cbn [src_keep]; [reflexivity|].
+    intros it _. cbv beta. rewrite compile_item_id. destruct it as [id ph h ch|nm]; cbn [src_keep]; [reflexivity|].
     (* a marker has id 0, not covered by a zero-free list *)
     f_equal. clear -Hz. induction (sp :: l) as [|s r IH]; [reflexivity|]. cbn [forallb specs_have existsb] in *.
     apply andb_true_iff in Hz as [H1 H2]. unfold specs_have in IH. rewrite (IH H2), orb_false_r.
